@@ -21,7 +21,8 @@ EXPLANATION = (
     '(A4, when the affine engine is available); and each layer forwards every '
     'constraint kind it holds to the library (W1). The eps margins themselves '
     'and TF op semantics are trusted.'
-    ' Also decided: what PWLCalibration.assert_constraints hands to the assertion depends on the kernel and on no presentation / imputation switch nor on constructor keypoints (A6, influence analysis); the KFL assertion checks the non-negativity of the factors that the projection enforces (A7); tuple lattice_sizes are handled (T3).')
+    ' Also decided: what PWLCalibration.assert_constraints hands to the assertion depends on the kernel and on no presentation / imputation switch nor on constructor keypoints (A6, influence analysis); the KFL assertion checks the non-negativity of the factors that the projection enforces (A7); tuple lattice_sizes are handled (T3).'
+    ' A weight that build() creates under guards G is asserted on under exactly G (A8); index pairs that address different axes of a vertex container are not paired by zip (A5).')
 ASSUMPTIONS = [
     'tf.reduce_* / tf.Assert / tf.squeeze have their documented semantics',
     'weights, outputs, scale are the only tensor-valued parameters of the '
